@@ -333,6 +333,44 @@ pub fn build(kind: &str, recv: &str, other: &str, nargs: usize) -> Option<Progra
 }
 
 /// negative cases: (name, source) that must be rejected with a diagnostic (never accepted, never a panic)
+const BOUND_HEAD: &str = "trait Tr { fn m(Self) -> string; }\ntrait Tq { fn q(Self) -> string; }\nstruct Sb { a: int32 }\nstruct Nb { a: int32 }\nstruct Bx[T] { v: T }\nimpl Tr for Sb { fn m(self: Sb) -> string { \"s\" } }\nimpl Tq for Sb { fn q(self: Sb) -> string { \"q\" } }\nimpl Tr for int32 { fn m(self: int32) -> string { \"i\" } }\nimpl Tr for Bx[int32] { fn m(self: Bx[int32]) -> string { \"b\" } }\nimpl Tr for (int32, bool) { fn m(self: (int32, bool)) -> string { \"t\" } }\nfn need[U: Tr](u: U) -> string { Tr::m(u) }\nfn both[U: Tr + Tq](u: U) -> string { Tr::m(u) + Tq::q(u) }\nfn second[A, B: Tr](a: A, b: B) -> string { Tr::m(b) }\n";
+
+/// (name, the rest of the program, whether the bounds are satisfied)
+fn bound_calls() -> Vec<(&'static str, &'static str, bool)> {
+    vec![
+        ("struct-with-impl", "fn main() { string_println(need(Sb { a: 1 })) }\n", true),
+        ("struct-without-impl", "fn main() { string_println(need(Nb { a: 1 })) }\n", false),
+        ("primitive-with-impl", "fn main() { string_println(need(1)) }\n", true),
+        ("primitive-without-impl", "fn main() { string_println(need(true)) }\n", false),
+        ("string-without-impl", "fn main() { string_println(need(\"s\")) }\n", false),
+        ("dyn-value", "fn main() { let s = Sb { a: 1 }; let d: dyn Tr = s; string_println(need(d)) }\n", false),
+        ("instance-with-impl", "fn main() { let b: Bx[int32] = Bx { v: 1 }; string_println(need(b)) }\n", true),
+        ("instance-without-impl", "fn main() { let b: Bx[bool] = Bx { v: true }; string_println(need(b)) }\n", false),
+        ("tuple-with-impl", "fn main() { string_println(need((1, true))) }\n", true),
+        ("tuple-without-impl", "fn main() { string_println(need((1, 1))) }\n", false),
+        ("two-bounds-both-implemented", "fn main() { string_println(both(Sb { a: 1 })) }\n", true),
+        ("two-bounds-one-implemented", "fn main() { string_println(both(1)) }\n", false),
+        ("second-parameter-bounded-first-free", "fn main() { string_println(second(true, 1)) }\n", true),
+        ("second-parameter-bounded-without-impl", "fn main() { string_println(second(1, true)) }\n", false),
+        ("caller-with-the-bound", "fn via[V: Tr](v: V) -> string { need(v) }\nfn main() { string_println(via(1)) }\n", true),
+        ("caller-without-a-bound", "fn via[V](v: V) -> string { need(v) }\nfn main() { string_println(via(1)) }\n", false),
+        ("caller-with-another-bound", "fn via[V: Tq](v: V) -> string { need(v) }\nfn main() { string_println(via(Sb { a: 1 })) }\n", false),
+        ("caller-with-both-bounds", "fn via[V: Tq + Tr](v: V) -> string { both(v) }\nfn main() { string_println(via(Sb { a: 1 })) }\n", true),
+        ("caller-with-one-of-two-bounds", "fn via[V: Tr](v: V) -> string { both(v) }\nfn main() { string_println(via(Sb { a: 1 })) }\n", false),
+        ("function-value-at-a-type-with-impl", "fn main() { let f: (Sb) -> string = need; string_println(f(Sb { a: 1 })) }\n", true),
+        ("function-value-at-a-type-without-impl", "fn main() { let f: (Nb) -> string = need; string_println(f(Nb { a: 1 })) }\n", false),
+        ("inside-a-closure-with-impl", "fn main() { let c = |k: int32| need(k); string_println(c(1)) }\n", true),
+        ("inside-a-closure-without-impl", "fn main() { let c = |k: bool| need(k); string_println(c(true)) }\n", false),
+        ("result-of-a-generic-call-with-impl", "fn idg[T](x: T) -> T { x }\nfn main() { string_println(need(idg(1))) }\n", true),
+        ("result-of-a-generic-call-without-impl", "fn idg[T](x: T) -> T { x }\nfn main() { string_println(need(idg(true))) }\n", false),
+    ]
+}
+
+/// the satisfied calls: (name, text, expected output)
+pub fn bound_controls() -> Vec<(String, String)> {
+    bound_calls().into_iter().filter(|(_, _, ok)| *ok).map(|(n, b, _)| (n.to_string(), format!("{}{}", BOUND_HEAD, b))).collect()
+}
+
 fn negatives() -> Vec<(&'static str, String)> {
     let head = "trait Tr { fn m(Self) -> string; }\ntrait Tq { fn m(Self) -> string; }\nstruct S { a: int32 }\nstruct N { a: int32 }\nimpl Tr for S { fn m(self: S) -> string { \"s\" } }\nimpl Tq for S { fn m(self: S) -> string { \"q\" } }\n";
     let v = vec![
@@ -427,6 +465,13 @@ fn negatives() -> Vec<(&'static str, String)> {
             ));
         }
     }
+    // the bound of a generic function at its call sites: the type argument has no impl of the trait, or the
+    // calling function's own type parameter lacks the bound (the same head with the satisfied calls is the
+    // control: it must be accepted, see `bound_controls`)
+    for (bn, body) in bound_calls().into_iter().filter(|(_, _, ok)| !*ok).map(|(n, b, _)| (n, b)) {
+        let name: &'static str = Box::leak(format!("bound-not-satisfied;{}", bn).into_boxed_str());
+        v.push((name, format!("{}{}", BOUND_HEAD, body)));
+    }
     // a value of a generic type's instance that has no impl (another instance has one), reaching a dyn
     // position in every form a value can be written and through every coercion site
     let dhead = "trait Sh { fn sh(Self) -> string; }\nstruct Bx[T] { v: T }\nenum Op[T] { So(T), No }\nimpl Sh for Bx[int32] { fn sh(self: Bx[int32]) -> string { \"bx\" } }\nimpl Sh for Op[int32] { fn sh(self: Op[int32]) -> string { \"op\" } }\nimpl Sh for (int32, Bx[int32]) { fn sh(self: (int32, Bx[int32])) -> string { \"tp\" } }\nstruct Holder { d: dyn Sh }\nfn take(d: dyn Sh) -> string { Sh::sh(d) }\n";
@@ -489,11 +534,53 @@ impl Family for Methods {
         for (name, _) in negatives() {
             v.push(json!({"kind": "negative", "name": name}));
         }
+        for (name, _) in bound_controls() {
+            v.push(json!({"kind": "bound-satisfied", "name": name}));
+        }
         Box::new(v.into_iter())
     }
     fn run(&self, case: &Value, ctx: &mut Ctx) -> Report {
         let mut rep = Report::default();
         let kind = case["kind"].as_str().unwrap();
+        if kind == "bound-satisfied" {
+            let name = case["name"].as_str().unwrap();
+            let text = bound_controls().into_iter().find(|(n, _)| n == name).unwrap().1;
+            let site = format!("bound-satisfied;{}", name);
+            rep.nontrivial_key = Some(text.clone());
+            rep.outcome = Some(site.clone());
+            // accepted, valid Go, runs (what it prints is the impl's own text: not pinned here)
+            let path = ctx.scratch.single_path();
+            let replay = json!({"kind": "text", "text": text, "oracle": "must-accept"});
+            match crate::oracle::compile_at(&path, &text) {
+                crate::oracle::CompileOutcome::Ok(comp) => {
+                    let go = crate::oracle::go_text(&comp).unwrap_or_default();
+                    drop(comp);
+                    match crate::projects::run_go(&go, FUEL) {
+                        Ok(o) if o.end == crate::oracle::NEnd::Ok && !o.stdout.is_empty() => rep.tag("bound-satisfied:runs"),
+                        Ok(o) => rep.findings.push(Finding { property: "C17", class: "sem.end".into(), site, detail: format!("{:?}/{}", lossy(&o.stdout), end_tag(&o.end)), replay }),
+                        Err(m) if m.starts_with("machinery") => rep.tag("machinery:go-unsupported"),
+                        Err(m) => {
+                            for p in ["C17", "C02"] {
+                                rep.findings.push(Finding { property: p, class: m.split(':').next().unwrap_or("go.invalid").to_string(), site: format!("{};goerr={}", site, normalise_msg(&m)), detail: m.clone(), replay: replay.clone() });
+                            }
+                        }
+                    }
+                }
+                crate::oracle::CompileOutcome::Err(e) => {
+                    let (stage, msg) = describe_err(&e);
+                    for p in ["C17", "C03"] {
+                        rep.findings.push(Finding { property: p, class: format!("well-typed.rejected.{}", stage), site: format!("{};msg={}", site, normalise_msg(&msg)), detail: msg.clone(), replay: replay.clone() });
+                    }
+                }
+                crate::oracle::CompileOutcome::Panic(m) => {
+                    let m = normalise_msg(&m);
+                    for p in ["C17", "C04"] {
+                        rep.findings.push(Finding { property: p, class: "compile.panic".into(), site: format!("{};msg={}", site, m), detail: m.clone(), replay: replay.clone() });
+                    }
+                }
+            }
+            return rep;
+        }
         if kind == "negative" {
             let name = case["name"].as_str().unwrap();
             let text = negatives().into_iter().find(|(n, _)| *n == name).unwrap().1;
